@@ -14,11 +14,17 @@ import (
 	"strconv"
 	"sync"
 	"syscall"
+	"time"
 
 	"github.com/mimiro-io/datahub/internal/server"
 )
 
 func main() {
+	if len(os.Args) > 1 && os.Args[1] == "--rsync-standin" {
+		// invoked through the stand-in `rsync` script the driver puts first on PATH for rsync-mode cases
+		time.AfterFunc(60*time.Second, func() { os.Exit(30) }) // rsync's "timeout in data send/receive"
+		os.Exit(server.VerifC20RsyncStandIn(os.Args[2:]))
+	}
 	dir := os.Args[1]
 	// every store open allocates a 128 MB memtable (hard-coded in Store.Open): keep the heap small and fail fast
 	// instead of eating the machine if something leaks
